@@ -1,5 +1,6 @@
 import ALV.Common.Json
 import ALV.Model.C07
+import ALV.Model.C07Hist
 import ALV.Spec.C07
 namespace ALV.Driver.C07
 open ALV ALV.J ALV.C07
@@ -158,6 +159,12 @@ def mToJson (x : M Json) : Except String Json :=
   | .error (.py e) => .ok (errJ e)
   | .error (.drv s) => .error s
 
+def mToJson' {β} (x : M β) : Except String (Option β) :=
+  match x with
+  | .ok v => .ok (some v)
+  | .error (.py _) => .ok none
+  | .error (.drv s) => .error s
+
 def boolJ (b : Bool) : Json := Json.bool b
 
 /-- the laws of the property, evaluated through the model; `null` = not applicable -/
@@ -193,6 +200,234 @@ def laws (p q r : P) (n : Nat) (c v : Rat) : List (String × Json) :=
     ("eq_hash", boolJ ((!eq (add p q) (add q p) || hashKey (add p q) == hashKey (add q p)) &&
                        (!eq (mul p q) (mul q p) || hashKey (mul p q) == hashKey (mul q p)))),
     ("ne_not_eq", boolJ (ne p q == !eq p q && ne (add p q) (add q p) == !eq (add p q) (add q p))) ]
+
+/-! ### histories (`Model/C07Hist.lean`) -/
+
+/-- a step of a history as the harness sends it: an operation on the heap, or a call of the (pure)
+    interpolators -/
+inductive HReq where
+  | op (o : HOp Rat)
+  | lagf (pts : List (Rat × Rat)) (ks : List Rat)
+  | lagp (pts : List (Rat × Rat)) (ks : List Rat)
+  | lagseq (qs : List (List (Rat × Rat) × Rat))     -- `resample`: one interpolator per output sample
+
+def getHorner (j : Json) : Except String Horner := do
+  match j with
+  | Json.str "auto" => pure .auto
+  | Json.bool true => pure .yes
+  | Json.bool false => pure .no
+  | _ => throw "horner: expected true / false / \"auto\""
+
+def getHReq (j : Json) : Except String HReq := do
+  let l ← getArr j
+  match l with
+  | [Json.str "new", Json.str "dict", ps] => pure (.op (.mk (← getList getPair ps)))
+  | [Json.str "new", Json.str "list", cs] => pure (.op (.ofList (← getList getRat cs)))
+  | [Json.str "new", Json.str "const", c] => pure (.op (.const (← getRat c)))
+  | [Json.str "from", s] => pure (.op (.fromSrc (← getNat s)))
+  | [Json.str "src_set", s, k, c] => pure (.op (.srcSet (← getNat s) (← getInt k) (← getRat c)))
+  | [Json.str "un", Json.str u, i] =>
+    let u ← match u with
+      | "neg" => pure UnOp.neg | "pos" => pure UnOp.pos | "copy" => pure UnOp.copy | "ctor" => pure UnOp.ctor
+      | _ => throw s!"C07 hist: bad unary {u}"
+    pure (.op (.un u (← getNat i)))
+  | [Json.str "bin", Json.str b, i, k] =>
+    let b ← match b with
+      | "add" => pure BinOp.add | "sub" => pure BinOp.sub | "mul" => pure BinOp.mul
+      | _ => throw s!"C07 hist: bad binary {b}"
+    pure (.op (.bin b (← getNat i) (← getNat k)))
+  | [Json.str "scal", Json.str o, i, c] =>
+    let o ← match o with
+      | "adds" => pure ScalOp.adds | "radds" => pure ScalOp.radds | "subs" => pure ScalOp.subs
+      | "rsubs" => pure ScalOp.rsubs | "muls" => pure ScalOp.muls | "rmuls" => pure ScalOp.rmuls
+      | _ => throw s!"C07 hist: bad scalar operator {o}"
+    pure (.op (.scal o (← getNat i) (← getRat c)))
+  | [Json.str "divs", i, c] => pure (.op (.divs (← getNat i) (← getRat c)))
+  | [Json.str "div", i, k] => pure (.op (.div (← getNat i) (← getNat k)))
+  | [Json.str "pow", i, n, fl] => pure (.op (.pow (← getNat i) (← getInt n) (← getBool fl)))
+  | [Json.str "comp", i, k] => pure (.op (.comp (← getNat i) (← getNat k)))
+  | [Json.str "call", i, v, h] => pure (.op (.call (← getNat i) (← getRat v) (← getHorner h)))
+  | [Json.str "diff", i, n] => pure (.op (.diff (← getNat i) (← getNat n)))
+  | [Json.str "integ", i] => pure (.op (.integ (← getNat i)))
+  | [Json.str "setitem", i, k, c] => pure (.op (.setitem (← getNat i) (← getInt k) (← getRat c)))
+  | [Json.str "setzero", i] => pure (.op (.setzero (← getNat i)))
+  | [Json.str "hash", i] => pure (.op (.hash (← getNat i)))
+  | [Json.str "eq", i, k] => pure (.op (.eq (← getNat i) (← getNat k)))
+  | [Json.str "ne", i, k] => pure (.op (.ne (← getNat i) (← getNat k)))
+  | [Json.str "eqs", i, c] => pure (.op (.eqs (← getNat i) (← getRat c)))
+  | [Json.str "lagf", pts, ks] => pure (.lagf (← getList getPoint pts) (← getList getRat ks))
+  | [Json.str "lagp", pts, ks] => pure (.lagp (← getList getPoint pts) (← getList getRat ks))
+  | [Json.str "lagseq", qs] =>
+    pure (.lagseq (← getList (fun q => do
+      match ← getArr q with
+      | [pts, k] => pure (← getList getPoint pts, ← getRat k)
+      | _ => throw "lagseq: expected [pairs, k]") qs))
+  | _ => throw s!"C07 hist: bad step {j.compress}"
+
+/-- the specified answer of a step, from the canonical forms of the CURRENT contents of its operands
+    (`Spec/C07.lean`); `null` where the property does not speak -/
+def specOf (st : HState Rat) (op : HOp Rat) : Json :=
+  let v (i : Nat) : Option P := st.val i
+  let pj (o : Option P) : Json := match o with
+    | some s => Json.mkObj [("terms", polyJ s)]
+    | none => Json.null
+  let un (i : Nat) (f : P → Option P) : Json := pj ((v i).bind f)
+  let bin (i j : Nat) (f : P → P → Option P) : Json := pj ((v i).bind fun p => (v j).bind fun q => f p q)
+  match op with
+  | .mk ps => pj (some (canon (ofPairs ps)))
+  | .ofList cs => pj (some (canon (enumFrom 0 cs)))
+  | .const c => pj (some (sConst c))
+  | .fromSrc s => pj ((st.srcs[s]?).map fun l => canon (ofPairs l))
+  | .srcSet _ _ _ => Json.null
+  | .un .neg i => un i (fun p => some (sNeg p))
+  | .un _ i => un i (fun p => some (canon p))
+  | .bin .add i j => bin i j (fun p q => some (sAdd p q))
+  | .bin .sub i j => bin i j (fun p q => some (sSub p q))
+  | .bin .mul i j => bin i j (fun p q => some (sMul p q))
+  | .scal .adds i c => un i (fun p => some (sAdd p (sConst c)))
+  | .scal .radds i c => un i (fun p => some (sAdd (sConst c) p))
+  | .scal .subs i c => un i (fun p => some (sSub p (sConst c)))
+  | .scal .rsubs i c => un i (fun p => some (sSub (sConst c) p))
+  | .scal .muls i c => un i (fun p => some (sMul p (sConst c)))
+  | .scal .rmuls i c => un i (fun p => some (sMul (sConst c) p))
+  | .divs i c => un i (fun p => if c = 0 then none else some (sDivMono p 0 c))
+  | .div i j => bin i j (fun p q => match canon q with
+      | [(d, w)] => some (sDivMono p d w)
+      | _ => none)
+  | .pow i n fl => un i (fun p => if fl && n ≠ 0 && decide (2 ≤ (canon p).length) then none else sPowZ p n)
+  | .comp i j => bin i j sComp
+  | .call i x _ => match v i with
+    | some p => if x = 0 ∧ !isPolynomial p then Json.null else Json.mkObj [("num", ratToJson (sEval (canon p) x))]
+    | none => Json.null
+  | .diff i n => un i (fun p => some (sDiffN p n))
+  | .integ i => un i sInteg
+  | .setitem i k c => match st.obj i with
+    | some (_, o) => if o.hashed then Json.null else
+        pj (some (canonOn (k :: keys o.data) (fun t => if t = k then c else coeff o.data t)))
+    | none => Json.null
+  | .setzero i => match st.obj i with
+    | some (_, o) => if o.hashed then Json.null else pj (some (canon o.data))
+    | none => Json.null
+  | .hash i => un i (fun p => some (canon p))
+  | .eq i j => match v i, v j with
+    | some p, some q => Json.mkObj [("bool", boolJ (sEq p q))]
+    | _, _ => Json.null
+  | .ne i j => match v i, v j with
+    | some p, some q => Json.mkObj [("bool", boolJ (!sEq p q))]
+    | _, _ => Json.null
+  | .eqs i c => match v i with
+    | some p => Json.mkObj [("bool", boolJ (sEq p (sConst c)))]
+    | none => Json.null
+
+/-- the variables whose contents differ from what they were before the step (new variables included) -/
+def deltaJ (st st' : HState Rat) : Json :=
+  Json.arr ((List.range st'.pool.length).filterMap fun idx =>
+    match st'.val idx with
+    | none => none
+    | some p' =>
+      if idx < st.pool.length ∧ st.val idx = some p' then none
+      else some (Json.arr [natToJson idx, polyJ (sortAsc p')]))
+
+/-- the earliest variable that refers to the same object as the last one (−1: a new object) -/
+def sameAs (st' : HState Rat) : Int :=
+  match st'.pool.reverse with
+  | [] => -1
+  | a :: _ =>
+    let n := st'.pool.length - 1
+    match (List.range n).find? (fun i => st'.pool[i]? == some a) with
+    | some i => (i : Int)
+    | none => -1
+
+def lagValues (pts : List (Rat × Rat)) (ks : List Rat) (fixed : Bool) : Json :=
+  exceptJ rats (((pts.map (·.1)) ++ ks).mapM (fun k => lagrangeFunc pts k fixed))
+
+def lagSpec (pts : List (Rat × Rat)) : Json :=
+  if distinctX pts && !pts.isEmpty then
+    Json.mkObj [("at_nodes", rats (sLagrangeAtNodes pts)), ("max_order", natToJson (pts.length - 1))]
+  else Json.null
+
+/-- argument positions of a step that name variables (the other arguments are literals) -/
+def refPositions : String → List Nat
+  | "un" => [2] | "bin" => [2, 3] | "scal" => [2]
+  | "divs" => [1] | "div" => [1, 2] | "pow" => [1] | "comp" => [1, 2] | "call" => [1]
+  | "diff" => [1] | "integ" => [1] | "setitem" => [1] | "setzero" => [1] | "hash" => [1]
+  | "eq" => [1, 2] | "ne" => [1, 2] | "eqs" => [1]
+  | _ => []
+
+/-- Variables are named by the harness: id `i < n` = the i-th initial object, id `n + t` = the result of
+    step `t`.  `vm[id]` is the pool position the variable got (`none`: that step returned no object, e.g.
+    it raised).  Rewrites the ids of a step into pool positions; `none` when one of them is unbound. -/
+def resolveRefs (vm : List (Option Nat)) (j : Json) : Except String (Option Json) := do
+  let l ← getArr j
+  match l with
+  | Json.str name :: _ =>
+    let pos := refPositions name
+    let rec go (i : Nat) : List Json → Except String (Option (List Json))
+      | [] => pure (some [])
+      | a :: t => do
+        let rest ← go (i + 1) t
+        match rest with
+        | none => pure none
+        | some r =>
+          if pos.contains i then
+            let id ← getNat a
+            match vm[id]? with
+            | some (some p) => pure (some (natToJson p :: r))
+            | _ => pure none
+          else pure (some (a :: r))
+    match ← go 0 l with
+    | some l' => pure (some (Json.arr l'))
+    | none => pure none
+  | _ => throw s!"C07 hist: bad step {j.compress}"
+
+def histStep (st : HState Rat) (r : HReq) : Except String (HState Rat × Json) :=
+  match r with
+  | .op op =>
+    let a := act st op
+    let st' := apply st a
+    let res : Except String (List (String × Json)) := match a with
+      | .alloc _ => .ok [("kind", Json.str "obj"), ("same_as", intToJson (-1))]
+      | .alias _ => .ok [("kind", Json.str "obj"), ("same_as", intToJson (sameAs st'))]
+      | .store _ _ => .ok [("kind", Json.str "none")]
+      | .frozen _ _ key => .ok [("kind", Json.str "hash"), ("key", polyJ key)]
+      | .num v => .ok [("kind", Json.str "num"), ("v", ratToJson v)]
+      | .bool b => .ok [("kind", Json.str "bool"), ("v", boolJ b)]
+      | .srcSet _ _ => .ok [("kind", Json.str "none")]
+      | .fail e => .ok [("kind", Json.str "err"), ("err", Json.str e.name)]
+      | .bad => .error "C07 hist: a step refers to an unknown variable or container"
+    match res with
+    | .error e => .error e
+    | .ok fs => .ok (st', Json.mkObj (fs ++ [("delta", deltaJ st st'), ("srcs", arr polyJ st'.srcs),
+        ("spec", specOf st op)]))
+  | .lagf pts ks =>
+    .ok (st, Json.mkObj [("kind", Json.str "lagf"), ("values", lagValues pts ks true),
+      ("delta", Json.arr []), ("srcs", arr polyJ st.srcs), ("spec", lagSpec pts)])
+  | .lagp pts ks =>
+    let pj := match lagrangePoly pts true with
+      | .ok p => Json.mkObj [("terms", polyJ (sortAsc p)),
+          ("at", rats (((pts.map (·.1)) ++ ks).map fun v => call p v .auto))]
+      | .error e => errJ e
+    .ok (st, Json.mkObj [("kind", Json.str "lagp"), ("poly", pj), ("values", lagValues pts ks true),
+      ("delta", Json.arr []), ("srcs", arr polyJ st.srcs), ("spec", lagSpec pts)])
+  | .lagseq qs =>
+    .ok (st, Json.mkObj [("kind", Json.str "lagseq"),
+      ("values", exceptJ rats (qs.mapM (fun q => lagrangeFunc q.1 q.2 true))),
+      ("delta", Json.arr []), ("srcs", arr polyJ st.srcs), ("spec", Json.null)])
+
+/-- runs the steps; `vm` maps the harness' variable ids to pool positions -/
+def histRun : HState Rat → List (Option Nat) → List Json → Except String (List Json × HState Rat)
+  | st, _, [] => .ok ([], st)
+  | st, vm, j :: rs => do
+    match ← resolveRefs vm j with
+    | none =>
+      let (js, fin) ← histRun st (vm ++ [none]) rs
+      pure (Json.mkObj [("kind", Json.str "unbound")] :: js, fin)
+    | some j' =>
+      let r ← getHReq j'
+      let (st', out) ← histStep st r
+      let bound : Option Nat := if st'.pool.length > st.pool.length then some st.pool.length else none
+      let (js, fin) ← histRun st' (vm ++ [bound]) rs
+      pure (out :: js, fin)
 
 def handle (entry : String) (j : Json) : Except String Json := do
   match entry with
@@ -239,6 +474,17 @@ def handle (entry : String) (j : Json) : Except String Json := do
       else Json.null
     pure <| Json.mkObj [("model", Json.mkObj [("func", fv false), ("poly", pj false)]),
       ("model_fixed", Json.mkObj [("func", fv true), ("poly", pj true)]), ("spec", s)]
+  | "hist" =>
+    let objs ← getList (fun o => do
+      match ← mToJson' (evalM o) with
+      | some p => pure p
+      | none => throw "C07 hist: an initial object raises") (fieldD j "objs" (Json.arr []))
+    let srcs ← getList (getList getPair) (fieldD j "srcs" (Json.arr []))
+    let ops ← getArr (← field j "ops")
+    let st0 := HState.init objs srcs
+    let (steps, fin) ← histRun st0 ((List.range objs.length).map some) ops
+    pure <| Json.mkObj [("init", arr (fun p => polyJ (sortAsc p)) objs), ("steps", Json.arr steps),
+      ("pool", arr natToJson fin.pool)]
   | _ => throw s!"C07: unknown entry {entry}"
 
 end ALV.Driver.C07
